@@ -77,7 +77,7 @@ def run(run):
     stats = None
     csvq = run.build_csvq()
     if csvq:
-        stats = run.stream("c19", 20000 if q else 500000, env={"VERIF_CSVQ": str(csvq)}, timeout=600 if q else 3300)
+        stats = run.stream("c19", 9000 if q else 500000, env={"VERIF_CSVQ": str(csvq)}, timeout=600 if q else 3300)
     law_names = {p.name for p in run.problems[before:] if p.kind == "law"}
     for p in static:
         if p.signature.startswith("nilerr:") and "cacheViewFromFile" in p.signature:
